@@ -3,7 +3,6 @@
 EXTENDS Fill
 CONSTANT WMax
 W == (-WMax)..WMax
-MirrorFR(fr) == CASE fr = 2 -> 3 [] fr = 3 -> 2 [] OTHER -> fr
 
 LemXor   == \A fr \in FillRules, s \in W, c \in W :
               InResult(4, fr, s, c) = (InResult(2, fr, s, c) /\ ~InResult(1, fr, s, c))
